@@ -352,12 +352,12 @@ type c07Model struct {
 	// sibling) starts again from one instead of being bumped. A failing case that this variant
 	// explains completely gets the specific signature, every other failing case the generic ones.
 	rcFromOne bool
-	now   time.Duration
-	c     [2]c07Member
-	pRun  bool
-	pSusp bool
-	pSig  []string
-	gSig  []string
+	now       time.Duration
+	c         [2]c07Member
+	pRun      bool
+	pSusp     bool
+	pSig      []string
+	gSig      []string
 }
 
 func c07NewModel(cfg c07Config) *c07Model {
@@ -539,10 +539,10 @@ func c07Spawn(cfg c07Config) *c07Family {
 
 // field-wise observation of one member, in the same layout as the model's.
 type c07Obs struct {
-	running, suspended           bool
-	preStart, restartCount, cnt  int
-	postStop                     int
-	stopped                      bool
+	running, suspended          bool
+	preStart, restartCount, cnt int
+	postStop                    int
+	stopped                     bool
 }
 
 func (f *c07Family) observe(i int) c07Obs {
